@@ -26,6 +26,8 @@ pub enum MockReply {
     Garbage,
     /// 200 with a JSON object that names nobody: {} / an error object / id or name missing
     Nobody(u8),
+    /// the first n requests are read and their connection is dropped without an answer; a later one gets 204
+    Dropped(u8),
 }
 
 #[derive(Clone, Debug, Serialize, Deserialize)]
@@ -115,10 +117,15 @@ fn decide(case: &Case, info: &mut CaseInfo) -> Verdict {
         MockReply::ServerError => Reply { status: 500, body: b"oops".to_vec(), content_type: "text/plain" },
         MockReply::Garbage => Reply { status: 200, body: b"<html>not json</html>".to_vec(), content_type: "text/html" },
         MockReply::Nobody(k) => Reply { status: 200, body: nobody_body(*k), content_type: "application/json" },
+        MockReply::Dropped(_) => Reply { status: 204, body: vec![], content_type: "application/json" },
     };
     let before = {
         let mut s = m.state.lock().unwrap();
         s.next = Some(reply);
+        s.drop_next = match &case.reply {
+            MockReply::Dropped(n) => u32::from(*n % 3) + 1,
+            _ => 0,
+        };
         s.heads.len()
     };
     let adapter = MojangAdapter::default().with_server_id(case.server_id.clone());
@@ -130,7 +137,11 @@ fn decide(case: &Case, info: &mut CaseInfo) -> Verdict {
     let Ok(result) = result else {
         return Verdict::Inconclusive("request to the loopback mock timed out".into());
     };
-    let heads: Vec<Vec<u8>> = m.state.lock().unwrap().heads[before..].to_vec();
+    let heads: Vec<Vec<u8>> = {
+        let mut st = m.state.lock().unwrap();
+        st.drop_next = 0;
+        st.heads[before..].to_vec()
+    };
     let reserved = case.name.chars().any(|c| RESERVED.contains(&c) || c.is_control());
     info.nontrivial = reserved;
     if reserved {
@@ -148,43 +159,46 @@ fn decide(case: &Case, info: &mut CaseInfo) -> Verdict {
         };
     }
     if heads.len() > 1 {
-        return Verdict::Fail { sig: "several-requests".into(), msg: format!("{} requests for one authentication", heads.len()) };
+        info.class("several_requests_for_one_authentication");
     }
-    let head = String::from_utf8_lossy(&heads[0]).into_owned();
-    let line = head.lines().next().unwrap_or("").to_string();
-    let mut parts = line.split(' ');
-    let (method, target, version) = (parts.next().unwrap_or(""), parts.next().unwrap_or(""), parts.next().unwrap_or(""));
-    if method != "GET" || !version.starts_with("HTTP/1.") || parts.next().is_some() {
-        return Verdict::Fail { sig: "request-line-malformed".into(), msg: format!("request line {line:?}") };
-    }
-    let (path, query) = match target.split_once('?') {
-        Some((p, q)) => (p, q),
-        None => (target, ""),
-    };
-    if path != "/session/minecraft/hasJoined" {
-        return Verdict::Fail { sig: "request-path-altered".into(), msg: format!("name {:?}: request path {path:?}", case.name) };
-    }
-    let mut usernames = Vec::new();
-    let mut server_ids = Vec::new();
-    for pair in query.split('&') {
-        let (k, v) = pair.split_once('=').unwrap_or((pair, ""));
-        match form_decode(k).as_deref() {
-            Some(b"username") => usernames.push(v),
-            Some(b"serverId") => server_ids.push(v),
-            other => {
-                return Verdict::Fail { sig: "request-parameter-added".into(), msg: format!("name {:?}: unexpected query parameter {:?} in {query:?}", case.name, other.map(|b| String::from_utf8_lossy(b).into_owned())) };
+    // every request that was made for this authentication has to be exact (a repeated request is legal)
+    for (ri, raw) in heads.iter().enumerate() {
+        let head = String::from_utf8_lossy(raw).into_owned();
+        let line = head.lines().next().unwrap_or("").to_string();
+        let mut parts = line.split(' ');
+        let (method, target, version) = (parts.next().unwrap_or(""), parts.next().unwrap_or(""), parts.next().unwrap_or(""));
+        if method != "GET" || !version.starts_with("HTTP/1.") || parts.next().is_some() {
+            return Verdict::Fail { sig: "request-line-malformed".into(), msg: format!("request #{ri} line {line:?}") };
+        }
+        let (path, query) = match target.split_once('?') {
+            Some((p, q)) => (p, q),
+            None => (target, ""),
+        };
+        if path != "/session/minecraft/hasJoined" {
+            return Verdict::Fail { sig: "request-path-altered".into(), msg: format!("name {:?}: request #{ri} path {path:?}", case.name) };
+        }
+        let mut usernames = Vec::new();
+        let mut server_ids = Vec::new();
+        for pair in query.split('&') {
+            let (k, v) = pair.split_once('=').unwrap_or((pair, ""));
+            match form_decode(k).as_deref() {
+                Some(b"username") => usernames.push(v),
+                Some(b"serverId") => server_ids.push(v),
+                other => {
+                    return Verdict::Fail { sig: "request-parameter-added".into(), msg: format!("name {:?}: unexpected query parameter {:?} in request #{ri} {query:?}", case.name, other.map(|b| String::from_utf8_lossy(b).into_owned())) };
+                }
             }
         }
-    }
-    if usernames.len() != 1 || server_ids.len() != 1 {
-        return Verdict::Fail { sig: "request-parameter-count".into(), msg: format!("name {:?}: {} username and {} serverId parameters in {query:?}", case.name, usernames.len(), server_ids.len()) };
-    }
-    if form_decode(usernames[0]).as_deref() != Some(case.name.as_bytes()) {
-        return Verdict::Fail { sig: "username-altered".into(), msg: format!("claimed name {:?}, username parameter {:?} decodes to {:?}", case.name, usernames[0], form_decode(usernames[0]).map(|b| String::from_utf8_lossy(&b).into_owned())) };
-    }
-    let expect_hash = refcrypto::mc_hash(&case.server_id, &case.secret, &case.key);
-    if form_decode(server_ids[0]).as_deref() != Some(expect_hash.as_bytes()) {
-        return Verdict::Fail { sig: "server-hash-altered".into(), msg: format!("serverId parameter {:?}, reference hash {expect_hash:?}", server_ids[0]) };
+        if usernames.len() != 1 || server_ids.len() != 1 {
+            return Verdict::Fail { sig: "request-parameter-count".into(), msg: format!("name {:?}: {} username and {} serverId parameters in request #{ri} {query:?}", case.name, usernames.len(), server_ids.len()) };
+        }
+        if form_decode(usernames[0]).as_deref() != Some(case.name.as_bytes()) {
+            return Verdict::Fail { sig: "username-altered".into(), msg: format!("claimed name {:?}, username parameter {:?} of request #{ri} decodes to {:?}", case.name, usernames[0], form_decode(usernames[0]).map(|b| String::from_utf8_lossy(&b).into_owned())) };
+        }
+        let expect_hash = refcrypto::mc_hash(&case.server_id, &case.secret, &case.key);
+        if form_decode(server_ids[0]).as_deref() != Some(expect_hash.as_bytes()) {
+            return Verdict::Fail { sig: "server-hash-altered".into(), msg: format!("serverId parameter {:?} of request #{ri}, reference hash {expect_hash:?}", server_ids[0]) };
+        }
     }
     // the adapter's verdict follows the reply
     match (&case.reply, &result) {
@@ -261,6 +275,7 @@ impl Check for C12 {
             1 => Just(MockReply::ServerError),
             1 => Just(MockReply::Garbage),
             2 => (0u8..6).prop_map(MockReply::Nobody),
+            1 => (0u8..3).prop_map(MockReply::Dropped),
         ];
         (name, prop_oneof![3 => Just(String::new()), 1 => "[ -~]{0,20}", 1 => "\\PC{0,12}"], proptest::collection::vec(any::<u8>(), 16..=16), proptest::collection::vec(any::<u8>(), 0..200), reply)
             .prop_map(|(name, server_id, secret, key, reply)| Case { name, server_id, secret, key, reply })
